@@ -172,7 +172,8 @@ func (c *cdbdriver) GetLocationByMap(ipnet *net.IPNet, mapID []byte, context Con
 	// NOTE: this assumes masks are from the most to the least specific as in:
 	// [128 120 96 56 0]
 	for _, mask := range maskLens {
-		if mask > maxMask {
+		if mask > maxMask || (isv4 && mask < 96) {
+			// more specific than the client, or (combined set) a length that only an IPv6 subnet can have
 			continue
 		}
 		// Finish creating the search key:
